@@ -100,6 +100,14 @@ Proof.
   rewrite gops_unfold. intros H. apply andb_true_iff in H. destruct H as [H1 H2]. split; auto.
   apply Forall_forall. now apply forallb_forall.
 Qed.
+(* no Pow in the fragment: C01's side condition of cfrag on exponents holds trivially *)
+Lemma gops_pownn : forall t, gops t = true -> pownn t = true.
+Proof.
+  induction t as [o args IH] using term_ind'. intros H. destruct (gops_args _ _ H) as [Ho Fa].
+  rewrite pownn_unfold. apply andb_true_iff. split.
+  - destruct o; try discriminate Ho; reflexivity.
+  - apply forallb_forall. intros a Ha. rewrite Forall_forall in IH, Fa. auto.
+Qed.
 
 Lemma gop_not_quant o : gop o = true -> is_quant o = None.
 Proof. destruct o; try discriminate; reflexivity. Qed.
@@ -643,9 +651,9 @@ Lemma eval_through ora m f ty I :
 Proof.
   intros Hm Hg Htc Hwf Hag Hcov Hnd.
   destruct (gfrag_parts _ Hg) as (_ & Ho & _).
-  destruct (subst_const f m ty Hm Hg Htc) as (r & Hs & Or & Tr & _ & _ & Cr & Sem).
+  destruct (subst_const f m ty Hm Hg Htc) as (r & Hs & Or & Tr & Gr & _ & Cr & Sem).
   destruct (Sem I Hwf Hag) as (Ev & Nd & _).
-  assert (Hcf : cfrag r = true) by (unfold cfrag; now rewrite Or, (Cr Hcov)).
+  assert (Hcf : cfrag r = true) by (apply cfrag_intro; [exact Or | exact (Cr Hcov) | now apply gops_pownn]).
   assert (Tr' : tc r = Some ty) by congruence.
   destruct (fold_complete_partial ora I r ty Hcf Tr' (proj1 (wf_interp_wfi I) Hwf) (Nd Hnd)) as (c & Sc & Kc & Tc & Ec).
   exists r, c. split; [rewrite substitute_mgs_eq; auto|]. split; auto. split; auto. split; auto. split.
